@@ -97,8 +97,18 @@ GraftsOf(q, u) ==
                        [] q.k = "SelectMany" -> IF i = 2 THEN u ELSE OccursG(q.ch[2], q.a) > 0
                        [] OTHER -> TRUE)} : i \in DOMAIN q.ch}
 
+\* the whole query under an explicit AsROOTTTree with the wrong number of column names (one too few - also
+\* none at all - and one too many); rows that are dicts are left out (C03: the documentation is silent there)
+LabelNames == <<"ca", "cb", "cc", "cd">>
+RootWith(q, n) == [k |-> "Root", a |-> "mytree", b |-> "myfile", n |-> n, d |-> 1,
+                   ch |-> <<q>> \o [i \in 1..n |-> T("Str", LabelNames[i], 0, <<>>)]]
+LabelGrafts(q) ==
+  IF q.k = "Root" \/ RowT(q).t = "dict" \/ NCols(q) > 3 THEN {}
+  ELSE {<<"labels_too_few", RootWith(q, NCols(q) - 1)>>, <<"labels_too_many", RootWith(q, NCols(q) + 1)>>}
+
 ExportGrafts == Complete =>
    LET q == Parse(toks) IN
    PrintT(<<"CASE", ToJson([q |-> q, support |-> Support(q),
-                            grafts |-> SetToSeq({[how |-> g[1], q |-> g[2], support |-> "MUST_REJECT"] : g \in GraftsOf(q, TRUE)})])>>)
+                            grafts |-> SetToSeq({[how |-> g[1], q |-> g[2], support |-> "MUST_REJECT"] :
+                                                   g \in GraftsOf(q, TRUE) \cup LabelGrafts(q)})])>>)
 =============================================================================
